@@ -52,7 +52,7 @@ def check_witnesses(module, cfg_all, names):
                 raise tlc.MachineryError('witness %s not reachable (TLC reported %r)' % (w, v))
 
 
-def stage_a(ctx, configs, required=('Attach', 'AttachDup', 'Detach', 'RecvInterest', 'Tick', 'Shutdown', 'RecvJunk')):
+def stage_a(ctx, configs, required=('Attach', 'AttachDup', 'Detach', 'RecvInterest', 'Tick', 'Shutdown', 'Connect', 'RecvJunk')):
     cov_total = {}
     for label, cfgp in configs:
         r = tlc.run('NdnFibMC', cfgp, coverage=True, workers=ctx.pick(8, 16), timeout=3000)
@@ -87,7 +87,7 @@ def events_of_path(path, vmap=None):
             evs.append({'a': act, 'i': a[0], 'v': vmap.get(a[1], a[1])})
         elif act == 'Reply':
             evs.append({'a': act, 'i': a[0]})
-        elif act in ('Tick', 'Shutdown'):
+        elif act in ('Tick', 'Shutdown', 'Connect'):
             evs.append({'a': act})
         elif act == 'RecvJunk':
             evs.append({'a': act, 'j': 'junk', 'hex': JUNK_BASIC[len(evs) % len(JUNK_BASIC)]})
@@ -140,7 +140,7 @@ REPRS = ['uri', 'strlist', 'byteslist', 'bytearraylist', 'memviewlist', 'wire', 
 
 
 def random_schedule(rng, front, n_events, weights=None, junk=None, max_ints=10, names=None):
-    w = dict(Attach=4, AttachDup=1, Detach=2, RecvInterest=8, IntValFinish=5, Reply=4, Tick=3, Shutdown=0.15, RecvJunk=1)
+    w = dict(Attach=4, AttachDup=1, Detach=2, RecvInterest=8, IntValFinish=5, Reply=4, Tick=3, Shutdown=0.15, Connect=2, RecvJunk=1)
     if weights:
         w.update(weights)
     verdicts = ['PASS', 'PASS', 'FAIL', 'TIMEOUT', 'SILENCE', 'BYPASS'] if front == 'v2' else ['T', 'T', 'F']
@@ -168,6 +168,8 @@ def random_schedule(rng, front, n_events, weights=None, junk=None, max_ints=10, 
                 choices.append('RecvInterest')
             if up:
                 choices += ['RecvJunk', 'Shutdown']
+            else:
+                choices.append('Connect')
             if pend:
                 choices.append('IntValFinish')
             if front == 'v2' and run.replyfn and len(run.rets) < 60:
@@ -205,6 +207,8 @@ def random_schedule(rng, front, n_events, weights=None, junk=None, max_ints=10, 
                 emit({'a': a})
                 if front == 'legacy':
                     attached.clear()
+            elif a == 'Connect':
+                emit({'a': a})
             else:
                 emit({'a': 'Tick'})
     finally:
